@@ -46,7 +46,7 @@ func Harness_C15_select() {
 	}
 	// optionally one upstream disconnected just before
 	removedE, removedI := -1, -1
-	if v.Choose("removed", 2) == 1 {
+	if rm := v.Choose("removed", 3); rm >= 1 {
 		removedE = v.Choose("removed.ep", 2)
 		if len(ups[removedE]) == 0 {
 			return
@@ -54,6 +54,12 @@ func Harness_C15_select() {
 		removedI = v.Choose("removed.idx", len(ups[removedE]))
 		m.RemoveConn(ups[removedE][removedI])
 		v.Cover("after-removal")
+		if rm == 2 {
+			// removed a second time (dropped by the proxy after go-away, then
+			// its connection closes): the remaining upstreams are unaffected
+			m.RemoveConn(ups[removedE][removedI])
+			v.Cover("after-duplicate-removal")
+		}
 	}
 	e := v.Choose("select.ep", 2)
 	allow := v.Choose("allow-forward", 2) == 1
